@@ -42,6 +42,7 @@ type propCfg struct {
 	Stubbed   []string
 	Assume    []string
 	Workers   int // 0 = all cores
+	MinBudget int // candidate runs the in-process minimiser may spend per violation (0 = 400)
 }
 
 var realA = []string{"prunner.PipelineRunner (prunner.go)", "taskctl.Scheduler (taskctl/scheduler.go)", "github.com/taskctl/taskctl/pkg/scheduler execution graph", "definition package"}
@@ -65,6 +66,13 @@ func cfgC(id, rule string) propCfg {
 	c.Stubbed = []string{"nothing; the simulator only decides the interleaving of job and stage goroutines at the hook points"}
 	c.Assume = []string{"scenario-replayable only: the kernel schedules the child processes, the fake clock stands still while they run", "output that is not valid UTF-8 is not generated (the JSON log API cannot carry it)", "sampling, not proof"}
 	return c
+}
+
+func minBudget(c propCfg) int {
+	if c.MinBudget > 0 {
+		return c.MinBudget
+	}
+	return 400
 }
 
 func cfgStore(c propCfg) propCfg {
@@ -106,6 +114,15 @@ var props = map[string]propCfg{
 		Assume: []string{"file modification times come from the real kernel clock, not the fake one", "SIGUSR1-triggered reload is not exercised (signals cannot be delivered into a bubble)", "sampling, not proof"}},
 	"C18": cfgC("C18", "seeded assignments of 4 names to the three environment levels (process env set by the harness, pipeline env, task env) in every overlap pattern, values with spaces, quotes, newlines, $, =, glob characters and non-ASCII; per-job variable maps (strings, numbers, lists) rendered through {{.var}}; 1-2 pipelines x 1-2 tasks, 1-4 jobs overlapping with the interleaving of job and stage goroutines chosen by the tape; every task reports, through interpreter built-ins and through an executed /bin/sh, what it sees (hex encoded); the reserved variable name __jobID in some requests; non-trivial = a finished task's report was compared; distinct = distinct trace hash"),
 	"C19": cfgC("C19", "seeded tasks of 1-4 commands writing known payloads (empty, partial lines, 4 KiB boundaries, 64 KiB, 1 MiB, 4 MiB, multi-byte text around 32 KiB, interleaved stdout/stderr), unusual task names, 1-3 concurrent jobs x 1-4 tasks writing at once through the real FileOutputStore; afterwards the log store and GET /job/logs must return exactly what each task's commands wrote, a task the job does not have must be refused, and no log directory may belong to no job; non-trivial = a finished task's output was compared; distinct = distinct trace hash"),
+	"C20": func() propCfg {
+		c := cfgC("C20", "REAL clock, real kernel (nothing simulated but the scenario generation): 1-3 concurrent jobs whose scripts are drawn from a process-tree grammar (foreground, background + wait, pipes, nested shells, interpreter-level background, several commands, a line that leaves a background process behind; optionally SIGINT ignored, optionally stdio detached), a seeded subset canceled at seeded instants or ended by a forced shutdown, kill timeout 1s; every process carries a mark in its environment; once a job is reported finished /proc must hold no live marked process of it after a 250ms grace, the report must come within kill timeout + 2s, bystander jobs must be untouched; a failure counts only if it repeats in three executions of the same scenario. non-trivial = a canceled process tree was checked; distinct = distinct scenario")
+		c.QuickS = 40
+		c.ThoroughS = 900
+		c.Workers = 4
+		c.MinBudget = 6 // every candidate is seconds of real time
+		c.Assume = []string{"weakest check of the set: real executions on a real kernel, replay reproduces the scenario, not the kernel's schedule", "a violation is reported only if three executions of the scenario all show it", "at most 4 workers so that the machine is not loaded", "processes that leave their process group (setsid) are outside the statement"}
+		return c
+	}(),
 	"C15": cfgA("C15", "seeded histories with settle-and-probe actions (list, then schedule at once), HTTP and direct reads; non-trivial = a schedulable probe or HTTP listing was evaluated; distinct = distinct trace hash", false),
 	"C16": cfgA("C16", "seeded old/new definition pairs produced by mutation (tasks added/removed/rewired, scripts, env, delay, limits, strategy, pipelines dropped/added), reloads at seeded points of job lives; non-trivial = a reload happened while a job was waiting or running; distinct = distinct trace hash", true),
 }
@@ -431,7 +448,7 @@ func check(prop, tier string) int {
 					return
 				}
 				job := WorkerJob{Mode: "search", Property: prop, Profile: cfg.Profile, SeedBase: seedBase, Worker: w, Workers: nw, StartK: startK,
-					DeadlineS: remaining, Out: filepath.Join(rc.work, fmt.Sprintf("w%d-%d.json", w, attempt)), ReplayDir: filepath.Join(rc.work, "replays"), MinBudget: 400, Tier: tier}
+					DeadlineS: remaining, Out: filepath.Join(rc.work, fmt.Sprintf("w%d-%d.json", w, attempt)), ReplayDir: filepath.Join(rc.work, "replays"), MinBudget: minBudget(cfg), Tier: tier}
 				out, stderr, err := runWorker(rc, job)
 				if out != nil {
 					mu.Lock()
